@@ -51,9 +51,11 @@ Scopes == {"all", "mod", "mod2"} \cup Params   \* activate / activate m / activa
 (* an error raised inside a nested read reaches the outer parameter with a context prefix in its *)
 (* text ("in m.read_p: ..."): same error (class, arguments) - it compares equal - other rendering. *)
 (* Errors that are not SECoP errors are re-wrapped per parameter and carry no context.           *)
-Nest(e) == CASE e = "e1" -> "n1" [] e = "e2" -> "n2" [] e = "e4" -> "n4" [] OTHER -> e
-Base(e) == CASE e = "n1" -> "e1" [] e = "n2" -> "e2" [] e = "n4" -> "e4" [] OTHER -> e
-AllErrs == Errs \cup {Nest(e) : e \in Errs} \cup Invs \cup {InitErr}
+Nest(e) == CASE e = "e1" -> "n1" [] e = "e2" -> "n2" [] e = "e4" -> "n4"
+            [] e = "i1" -> "ni1" [] e = "i2" -> "ni2" [] OTHER -> e
+Base(e) == CASE e = "n1" -> "e1" [] e = "n2" -> "e2" [] e = "n4" -> "e4"
+            [] e = "ni1" -> "i1" [] e = "ni2" -> "i2" [] OTHER -> e
+AllErrs == Errs \cup Invs \cup {Nest(e) : e \in Errs \cup Invs} \cup {InitErr}
 
 VARIABLES cache,   \* [Params -> [val, err, ts]]
           omit,    \* [Params -> Nat] suppression window per parameter (fixed after Init)
@@ -134,13 +136,19 @@ AnnounceAt(p, x, t)   == /\ t > 0
                          /\ IF x \in Vals THEN Announce(p, x, Ok, t) ELSE Announce(p, cache[p].val, x, t)
                          /\ UNCHANGED <<omit, hidden, sub>>
 (* read_q's driver calls read_p: p is announced, then q - with the same value, or with the error *)
-(* raised by p's driver (which reaches q with its context)                                        *)
+(* raised by p's driver / the validation error of the value p's driver delivered (which reaches  *)
+(* q with its context).  The inner read may be served by a common read handler whose function    *)
+(* assigns the refused value: same outcome.                                                      *)
 ReadNested(p, q, x, tm) ==
     LET vf(r) == IF x \in Vals THEN x ELSE cache[r].val
         ef(r) == IF x \in Vals THEN Ok ELSE IF r = q THEN Nest(x) ELSE x
     IN /\ p # q
        /\ AnnounceMany({p, q}, vf, ef, tm)
        /\ UNCHANGED <<omit, hidden, sub>>
+(* write_q's driver reads p back and that read fails: p is announced, the write fails, q is untouched *)
+WriteNested(p, q, x, tm) == /\ p # q /\ x \in Errs \cup Invs
+                            /\ Announce(p, cache[p].val, x, tm)
+                            /\ UNCHANGED <<omit, hidden, sub>>
 (* operations after which neither the cache nor any stream may differ: a read returning Done, a   *)
 (* read of a parameter without driver method, a write that is refused / fails / returns Done, the *)
 (* read of a constant                                                                              *)
@@ -190,6 +198,7 @@ Do(op, tm) ==
       [] op.a = "AssignInvalid" -> AssignInvalid(op.p, op.x, tm)
       [] op.a = "AnnounceAt"  -> AnnounceAt(op.p, op.x, op.n)
       [] op.a = "ReadNested"  -> ReadNested(op.p, op.y, op.x, tm)
+      [] op.a = "WriteNested" -> WriteNested(op.p, op.y, op.x, tm)
       [] op.a = "Untouched"   -> Untouched
       [] op.a = "Activate"    -> Activate(op.p, op.x)
       [] op.a = "Deactivate"  -> Deactivate(op.p, op.x)
@@ -210,7 +219,9 @@ AtOps(p) == {[a |-> "AnnounceAt", p |-> p, x |-> x, y |-> "-", n |-> t] :
                  x \in Vals \cup Errs, t \in (IF now > 1 THEN {now - 1} ELSE {})}
 SameModule(p, q) == (p \in Mod2) = (q \in Mod2)
 NestOps(p) == {[a |-> "ReadNested", p |-> p, x |-> x, y |-> q, n |-> 0] :
-                   x \in Vals \cup Errs, q \in {r \in Params \ {p} : SameModule(p, r)}}
+                   x \in Vals \cup Errs \cup Invs, q \in {r \in Params \ {p} : SameModule(p, r)}} \cup
+              {[a |-> "WriteNested", p |-> p, x |-> x, y |-> q, n |-> 0] :
+                   x \in Errs \cup Invs, q \in {r \in Params \ {p} : SameModule(p, r)}}
 ActOps == {[a |-> "Activate", p |-> c, x |-> sc, y |-> "-", n |-> 0] : c \in Conns, sc \in ActScopes}
 DeactOps == {[a |-> "Deactivate", p |-> c, x |-> sc, y |-> "-", n |-> 0] : c \in Conns, sc \in ActScopes \cup {"all"}} \cup
             {[a |-> "Drop", p |-> c, x |-> "-", y |-> "-", n |-> 0] : c \in Conns}
